@@ -40,9 +40,11 @@ import ast, os, hashlib
 from translate import Untranslatable, find_function
 
 ERRS = {"ValueError", "IndexError", "OverflowError", "TypeError"}
+HANDLER_KINDS = {"ValueError": "ValueError", "OverflowError": "OverflowError", "TypeError": "TypeError",
+                 "IndexError": "IndexError", "UnicodeEncodeError": "UnicodeError"}
 LEAN_TY = {"Int": "Int", "Bool": "Bool", "Bytes": "BytesPy.Bytes", "OptBytes": "Option BytesPy.Bytes",
            "Comps": "List BytesPy.Comp", "Comp": "BytesPy.Comp", "Date": "Int", "TD": "Int", "Off": "IsoT.Off",
-           "Value": "IsoT.Value", "Match": "Option (BytesPy.Bytes × BytesPy.Bytes)", "Time": "List BytesPy.Comp"}
+           "Value": "IsoT.Value", "Match": "Option (BytesPy.Bytes × BytesPy.Bytes)", "Time": "List BytesPy.Comp", "PyVal": "BytesPy.PyVal"}
 DEFAULT = {"Int": "0", "Bool": "false", "Bytes": "[]", "Comps": "[]", "Date": "0", "TD": "0",
            "Off": "IsoT.Off.utc", "Match": "none", "Comp": "BytesPy.Comp.none"}
 
@@ -60,13 +62,14 @@ def lean_rty(t):
 
 class BFn:
     """one function to translate"""
-    def __init__(self, qualname, leanname, params, ret, self_attrs=None, fuel=None):
+    def __init__(self, qualname, leanname, params, ret, self_attrs=None, fuel=None, closure=None):
         self.qualname = qualname      # e.g. "isoparser._parse_tzstr" or "_parse_digits"
         self.leanname = leanname
         self.params = params          # [(pyname, type)] excluding self
         self.ret = ret                # type of the returned value
         self.self_attrs = self_attrs or {}   # attr -> type, passed as parameters self_<attr>
         self.fuel = fuel              # bound for the `while` loop, if any
+        self.closure = closure        # name of a free variable bound by an enclosing function: a method on bytes
 
 
 class BTr:
@@ -234,8 +237,30 @@ class BTr:
 
     def call(self, e):
         f = e.func
+        if isinstance(f, ast.Call) and isinstance(f.func, ast.Name) and f.func.id == "getattr" and not e.args \
+                and not e.keywords and len(f.args) == 3 and isinstance(f.args[0], ast.Name) \
+                and isinstance(f.args[1], ast.Constant) and f.args[1].value == "read" \
+                and isinstance(f.args[2], ast.Lambda) and not f.args[2].args.args \
+                and isinstance(f.args[2].body, ast.Name) and f.args[2].body.id == f.args[0].id:
+            b, t, ty = self.expr(f.args[0])
+            if ty != "PyVal": raise Untranslatable("getattr(.., 'read', ..) on %s" % ty)
+            return b, "(BytesPy.readAll %s)" % t, "PyVal"
+        if isinstance(f, ast.Name) and self.spec.closure == f.id:
+            # f(self, x, *args, **kwargs): the wrapped method applied to the (bytes) value
+            pos = [a for a in e.args if not isinstance(a, ast.Starred)]
+            if len(pos) != 2 or not (isinstance(pos[0], ast.Name) and pos[0].id == "self"):
+                raise Untranslatable("call of the wrapped method")
+            b, t, ty = self.expr(pos[1])
+            if ty != "PyVal": raise Untranslatable("wrapped method applied to %s" % ty)
+            n1, n2 = self.fresh(), self.fresh()
+            return b + [(n1, "BytesPy.asBytes %s" % t, "Bytes"), (n2, "%s %s" % (f.id, n1), "Any")], n2, "Any"
         if isinstance(f, ast.Name):
             name = f.id
+            if name == "isinstance" and len(e.args) == 2 and isinstance(e.args[1], ast.Attribute) \
+                    and isinstance(e.args[1].value, ast.Name) and e.args[1].value.id == "six" and e.args[1].attr == "text_type":
+                b, t, ty = self.expr(e.args[0])
+                if ty != "PyVal": raise Untranslatable("isinstance on %s" % ty)
+                return b, "(BytesPy.isText %s)" % t, "Bool"
             if name == "len" and len(e.args) == 1:
                 b, t, ty = self.expr(e.args[0])
                 if ty not in ("Bytes", "Comps"): raise Untranslatable("len of %s" % ty)
@@ -304,6 +329,10 @@ class BTr:
             if f.attr == "match":
                 raise Untranslatable("regex %r" % (self.consts.get(getattr(f.value, "attr", None)),))
             b, t, ty = self.expr(f.value)
+            if f.attr == "encode" and ty == "PyVal" and len(e.args) == 1 and isinstance(e.args[0], ast.Constant) \
+                    and e.args[0].value == "ascii":
+                n = self.fresh()
+                return b + [(n, "BytesPy.encodeAscii %s" % t, "PyVal")], n, "PyVal"
             if f.attr == "isdigit" and ty == "Bytes" and not e.args:
                 return b, "(BytesPy.isdigit %s)" % t, "Bool"
             if f.attr == "isocalendar" and ty == "Date" and not e.args:
@@ -516,6 +545,8 @@ class BTr:
         raise Untranslatable("statement %s" % type(s).__name__)
 
     def check_ret(self, ty):
+        if self.spec.ret == "Any":
+            return
         if ty != self.spec.ret:
             raise Untranslatable("return type %s, declared %s" % (ty, self.spec.ret))
 
@@ -610,9 +641,21 @@ class BTr:
         if len(s.body) != 1 or len(s.handlers) != 1 or s.orelse or s.finalbody:
             raise Untranslatable("try statement shape")
         h = s.handlers[0]
-        if not isinstance(h.type, ast.Name) or h.type.id not in ERRS:
+        if not isinstance(h.type, ast.Name) or h.type.id not in HANDLER_KINDS:
             raise Untranslatable("except clause")
-        kind = h.type.id
+        kind = HANDLER_KINDS[h.type.id]
+        hbody = list(h.body)
+        # message construction (string constants) before the raise is irrelevant to the exception kind
+        while hbody and isinstance(hbody[0], ast.Assign) and isinstance(hbody[0].value, ast.Constant) \
+                and isinstance(hbody[0].value.value, str):
+            hbody = hbody[1:]
+        # six.raise_from(E(...), e)  ==  raise E(...) from e
+        if len(hbody) == 1 and isinstance(hbody[0], ast.Expr) and isinstance(hbody[0].value, ast.Call) \
+                and isinstance(hbody[0].value.func, ast.Attribute) and hbody[0].value.func.attr == "raise_from" \
+                and isinstance(hbody[0].value.func.value, ast.Name) and hbody[0].value.func.value.id == "six" \
+                and len(hbody[0].value.args) == 2:
+            hbody = [ast.Raise(exc=hbody[0].value.args[0], cause=None)]
+        h = ast.ExceptHandler(type=h.type, name=h.name, body=hbody)
         body = s.body[0]
         if isinstance(body, ast.Return):
             saved = dict(self.types)
@@ -674,8 +717,10 @@ class BTr:
         params += ["(%s : %s)" % (n, lean_ty(t)) for n, t in sp.params]
         body = self.block(fn.body, None, 1)
         text = "".join(a + "\n" for a in self.aux)
+        if sp.closure:
+            params = ["{α : Type}", "(%s : BytesPy.Bytes → Py.R α)" % sp.closure] + params
         text += "/-- translated from `%s` -/\ndef %s %s : Py.R %s :=\n%s\n" % (
-            sp.qualname, sp.leanname, " ".join(params), lean_rty(sp.ret), body)
+            sp.qualname, sp.leanname, " ".join(params), "α" if sp.ret == "Any" else lean_rty(sp.ret), body)
         return text, hashlib.sha256(ast.dump(fn).encode()).hexdigest()[:16]
 
 
@@ -703,6 +748,8 @@ ISO_SPECS = [
     BFn("isoparser.parse_isodate", "parseIsodateEntry", [("datestr", "Bytes")], "Date"),
     BFn("isoparser.parse_isotime", "parseIsotimeEntry", [("timestr", "Bytes")], "Time"),
     BFn("isoparser.parse_tzstr", "parseTzstrEntry", [("tzstr", "Bytes"), ("zero_as_utc", "Bool")], "Off"),
+    # the decorator: its inner function, with the wrapped method `f` as a parameter
+    BFn("_takes_ascii.func", "takesAscii", [("str_in", "PyVal")], "Any", closure="f"),
 ]
 
 if __name__ == "__main__":
